@@ -375,7 +375,7 @@ func main() {
 			if tier == "thorough" {
 				return 25 * time.Minute
 			}
-			return 150 * time.Second
+			return 300 * time.Second
 		},
 		Assumptions: []string{
 			"peer is scripted and causally correct (answers each work-start exactly once, never closes early)",
